@@ -21,11 +21,39 @@ def with_observe(res):
     return evs
 
 
+def _corruptions(traces):
+    """Binding self-test material: copies of recorded traces with one event dropped / one field changed, which the
+    specification must reject (a trace spec that accepts them constrains nothing)."""
+    out = []
+    for t in traces:
+        evs = t["events"]
+        if any(e["e"] == "Gap" for e in evs):
+            continue
+        pops = [i for i, e in enumerate(evs) if e["e"] == "FramePop"]
+        pushes = [i for i, e in enumerate(evs) if e["e"] == "FramePush"]
+        if pops and not any(x["id"] == "__selftest_drop_pop" for x in out):
+            i = pops[len(pops) // 2]
+            out.append({"id": "__selftest_drop_pop", "events": evs[:i] + evs[i + 1:]})
+        if pushes and not any(x["id"] == "__selftest_depth" for x in out):
+            i = pushes[-1]
+            e2 = dict(evs[i]); e2["d"] = e2["d"] + 1
+            out.append({"id": "__selftest_depth", "events": evs[:i] + [e2] + evs[i + 1:]})
+        tries = [i for i, e in enumerate(evs) if e["e"] == "TryStart"]
+        if tries and any(e["e"] == "Caught" for e in evs) and not any(x["id"] == "__selftest_drop_try" for x in out):
+            i = tries[0]
+            out.append({"id": "__selftest_drop_try", "events": evs[:i] + evs[i + 1:]})
+        if len(out) >= 3:
+            break
+    return out
+
+
 def validate(traces, tag="vm", shards=8, timeout=900):
     """traces: list of {id, events}. Returns {id: verdict}, stats."""
     traces = [t for t in traces if t["events"]]
     if not traces:
         return {}, {"states": 0, "transitions": 0}
+    selftest = _corruptions(traces)
+    traces = traces + selftest
     common.ensure_dir(common.WORK)
     shards = max(1, min(shards, len(traces) // 10 or 1))
     parts = [traces[i::shards] for i in range(shards)]
@@ -60,4 +88,9 @@ def validate(traces, tag="vm", shards=8, timeout=900):
     missing = [t["id"] for t in traces if t["id"] not in verdicts]
     if missing:
         raise common.ToolError("no verdict for %d traces" % len(missing))
-    return verdicts, {"states": states, "transitions": trans}
+    accepted = [t["id"] for t in selftest if verdicts[t["id"]]["ok"]]
+    if accepted:
+        raise common.ToolError("binding self-test: corrupted traces were accepted by Trace_KotoVm.tla: %s" % accepted)
+    for t in selftest:
+        del verdicts[t["id"]]
+    return verdicts, {"states": states, "transitions": trans, "corrupted_traces_rejected": len(selftest)}
